@@ -96,3 +96,11 @@ Definition name_range_okb_tbl (tbl : list position) (n : nat) (src name : bytes)
 Definition plain_range_okb_tbl (tbl : list position) (n : nat) (from to : position) : bool :=
   (p_index from <=? p_index to) && (p_index to <=? n) &&
   pos_eqb from (pos_at_tbl tbl (p_index from)) && pos_eqb to (pos_at_tbl tbl (p_index to)).
+
+(* ---- saturation (how numbers of the real parser reach the extracted predicates) ----
+   The recorded Line / Col are uint32 and Index is int64; a wrapped-around column (4294967295) cannot be handed to the
+   unary numbers of the extracted code.  Every component above length src is therefore replaced by length src + 1 before
+   the predicates run; proofs/ParseInputProof.v (saturated_checks_equal) shows that this never changes their value:
+   a faithful position of an index <= length src has line and column <= length src as well. *)
+Definition sat_pos (n : nat) (p : position) : position :=
+  mkpos (Nat.min (p_index p) (S n)) (Nat.min (p_line p) (S n)) (Nat.min (p_col p) (S n)).
